@@ -76,7 +76,7 @@ package pdf
 //@ pred apos(s *scanner) = s.filePos + s.pos
 
 //@ func (*scanner).refill (s) (err)
-//@   tags C01 C04 C05 C19 C20
+//@   tags C01 C02 C04 C05 C19 C20
 //@   requires R(s)
 //@   assigns s.filePos, s.pos, s.used, s.err, elems(s.buf), s.src.rdpos
 //@   ensures R(s)
@@ -95,7 +95,7 @@ package pdf
 //@ pred avail(s *scanner) = len(s.src.stream) - (s.filePos + s.pos - s.P0)
 
 //@ func (*scanner).PeekN (s, n) (view, err)
-//@   tags C01 C04 C05 C19 C20
+//@   tags C01 C02 C04 C05 C19 C20
 //@   requires R(s) && 0 <= n && n <= 1024
 //@   assigns s.filePos, s.pos, s.used, s.err, elems(s.buf), s.src.rdpos
 //@   ensures R(s) && scanFrame(s)
@@ -106,7 +106,7 @@ package pdf
 //@   ensures len(view) < n && s.src.fails ==> err != nil
 
 //@ func (*scanner).ReadByte (s) (c, err)
-//@   tags C01 C04 C05 C19 C20
+//@   tags C01 C02 C04 C05 C19 C20
 //@   requires R(s)
 //@   assigns s.filePos, s.pos, s.used, s.err, elems(s.buf), s.src.rdpos
 //@   ensures R(s) && scanFrame(s)
@@ -750,3 +750,18 @@ package pdf
 //@   ensures err == nil && sec.R <= 4 ==> key.digestOf.log[len(sec.key)] == (ref % 4294967296) % 256 && key.digestOf.log[len(sec.key)+1] == ((ref % 4294967296) / 256) % 256 && key.digestOf.log[len(sec.key)+2] == ((ref % 4294967296) / 65536) % 256
 //@   ensures err == nil && sec.R <= 4 ==> key.digestOf.log[len(sec.key)+3] == (ref / 4294967296) % 256 && key.digestOf.log[len(sec.key)+4] == ((ref / 4294967296) / 256) % 256
 //@   ensures err == nil && sec.R <= 4 && cf.Cipher == cipherAES ==> key.digestOf.log[len(sec.key)+5] == 's' && key.digestOf.log[len(sec.key)+6] == 'A' && key.digestOf.log[len(sec.key)+7] == 'l' && key.digestOf.log[len(sec.key)+8] == 'T'
+
+// ---- cross-reference stream fields are written big-endian, most significant byte first (C03) ----
+//@ spec func beDigit(x int, w int, k int) int = (x / pow256(w - 1 - k)) % 256
+
+//@ func encodeInt64 (data, x, w) (err)
+//@   tags C03 C02
+//@   requires data != nil && 0 <= w && w <= 8
+//@   assigns data.log
+//@   ensures forall i in 0..old(len(data.log)) :: data.log[i] == old(data.log[i])
+//@   ensures err == nil ==> len(data.log) == old(len(data.log)) + w
+//@   ensures err == nil ==> forall k in 0..w :: data.log[old(len(data.log)) + k] == beDigit(x, w, k)
+//@   loop 1: invariant -1 <= i && i <= w - 1 && len(data.log) == old(len(data.log)) + (w - 1 - i)
+//@   loop 1: invariant forall j in 0..old(len(data.log)) :: data.log[j] == old(data.log[j])
+//@   loop 1: invariant forall k in 0..(w - 1 - i) :: data.log[old(len(data.log)) + k] == beDigit(x, w, k)
+//@   loop 1: decreases i + 1
